@@ -223,6 +223,35 @@ func ordString(o [4]int) string {
 func c05Specs() []*edt.Spec {
 	return []*edt.Spec{
 		{
+			// IsCanonical: s is canonical iff its bytes EQUAL the bytes of its own reduction (so exactly s < L)
+			Pkg: "curve/scalar", Func: "(*Scalar).IsCanonical", Opaque: []string{"Scalar.Reduce"}, MinPaths: 1, Vars: map[string]string{},
+			Classify: func(p *edt.Path, out string, e *edt.Env) string {
+				if len(p.Outcome) != 1 {
+					return ""
+				}
+				o := p.Outcome[0]
+				if o.Op == "==" && len(o.Args) == 2 && o.Args[1].String() == "1" {
+					o = o.Args[0]
+				}
+				switch o.Op {
+				case "bytes.Equal", "subtle.ConstantTimeCompare", "subtle.ConstantTimeCompareBytes", "Scalar.Equal":
+				default:
+					return ""
+				}
+				if len(o.Args) != 2 {
+					return ""
+				}
+				a, b := o.Args[0].String(), o.Args[1].String()
+				own := func(x string) bool { return x == "$s.inner" || x == "$s" }
+				red := func(x string) bool { return strings.Contains(x, "Scalar.Reduce($s)") }
+				if (own(a) && red(b)) || (own(b) && red(a)) {
+					return "equals-own-reduction"
+				}
+				return ""
+			},
+			Formula: map[string]func(e *edt.Env) edt.Tri{"equals-own-reduction": always},
+		},
+		{
 			// SetCanonicalBytes: len = 32 ∧ bit 255 clear ∧ IsCanonical
 			Pkg: "curve/scalar", Func: "(*Scalar).SetCanonicalBytes", Opaque: []string{"Scalar.IsCanonical"}, MinPaths: 3,
 			Vars:      map[string]string{"(len($in) == 32)": "len32", "(($in[31] >> 7) == 0)": "highBitClear"},
@@ -257,7 +286,7 @@ func init() {
 		}
 		dts := run.Rule("DT-S", "ScMinimalVartime returns exactly 'little-endian value < L' on every consistent abstract input, false on any other length", 5000)
 		red := run.Rule("REDUCED", "every scalar operation documented to return a reduced value packs a value that is reduced by construction (Montgomery reduction, or sums/differences of reduced values and constants below L)", 12)
-		dt := run.Rule("DT-canonical", "SetCanonicalBytes accepts exactly len = 32 ∧ bit 255 clear ∧ IsCanonical", 3)
+		dt := run.Rule("DT-canonical", "SetCanonicalBytes accepts exactly len = 32 ∧ bit 255 clear ∧ IsCanonical; IsCanonical compares the scalar with its own reduction", 4)
 		for _, id := range c.Configs() {
 			p := c.Prog(id)
 			run.SetConfig(id)
